@@ -52,8 +52,8 @@ Definition checks (c : case) : list bool :=
       [ trace_safe dst s t;
         no_leftovers (dst :: keep) s t;
         eqb_list (eqb_option N.eqb) (map (option_map (byte_len bm)) av) lens;
-        negb bm || eqb_list eqb_odata av vers;
-        negb bm || forallb (fun v => mem_odata v av) (visible_states s t dst) ]
+        (if bm then eqb_list eqb_odata av vers else true);
+        (if bm then forallb (fun v => mem_odata v av) (visible_states s t dst) else true) ]
   end.
 
 Definition case_ok (c : case) : bool := forallb (fun b => b) (checks c).
